@@ -7,13 +7,15 @@ package util
 //@ requires items >= 1 && items <= 4611686018427387904
 //@ ensures [bounds] 1 <= result && result <= items
 
-// The worker goroutine: checked only as "spawned with this extent" (its body is concurrency, see DESIGN 2.3).
+// The worker goroutine: it calls the worker function exactly once on every path, with the extent it was spawned with
+// (channel sends are no-ops in the sequential reading; that Scatter waits for one message per worker is not verified).
 //@ func Scatter$1
+//@ calls work(offset, entries, mutex) once
 
 // Scatter is a parallel-for driver: callers apply the disjoint-parallel rule to the worker closure they pass.
 // The 'with' clause (what every spawned worker receives as offset/entries) is proved at the go statement.
-// Assumed, not verified: the goroutine Scatter$1 calls work(offset, entries, mutex) exactly once with its own
-// parameters, and Scatter returns only after one message per worker has arrived (channel counting).
+// Verified on Scatter$1: the goroutine calls work(offset, entries, mutex) exactly once with its own parameters.
+// Assumed, not verified: Scatter returns only after one message per worker has arrived (channel counting).
 //@ func Scatter
 //@ requires inputLen <= 4611686018427387904
 //@ parfor work inputLen
